@@ -12,6 +12,7 @@ ING = "ing:a,ing:-a,ing:a+b,ing:-a+ab-b,ing:AB,ing:a2-,C,C*,R,V"
 # ... plus two shapes whose timestamp range straddles earlier files (level-0 files that cannot be
 # ordered) and two ingests that park on the level-0 stall until a compaction step makes room
 ING_STALL = "ing:a,ing:-a,ing:a+b,ing:-a+ab-b,ing:AB,ing:a2-,ing:a~c,ing:-ab~c,ing!:a+b,ing!:a~c,C,C*,R,V"
+ING_STRADDLE = "ing:a,ing:-a,ing:a+b,ing:-a+ab-b,ing:AB,ing:a2-,ing:a~c,ing:-ab~c,C,C*,R,V"
 ING_SCAN = "ing:a,ing:-a+ab-b,ing:AB,ing:a+b,scan:0,scan:8,walk:0:next,walk:0:prev,walk:0:seek(ab),C,C*,V"
 
 
@@ -99,8 +100,8 @@ CHECKS = {
         "technique": "explicit-state bounded model checking: full multi-version dump of the live SSTs before and after every compaction step of every history <= d, compared as multisets / against an independent reading of the GC policy",
         "design_ref": "DESIGN.md 4 (C05)",
         "jobs": {
-            "quick": [tree("C05", 4, 3), seq("C05", 4)],
-            "thorough": [tree("C05", 6, 4), seq("C05", 5), seq("C05", 4, "A-min,B-l0,F-anygc,G-mand4-stall2")],
+            "quick": [tree("C05", 5, 3, alphabet=ING_STRADDLE), seq("C05", 4)],
+            "thorough": [tree("C05", 6, 4, alphabet=ING_STRADDLE), seq("C05", 5), seq("C05", 4, "A-min,B-l0,F-anygc,G-mand4-stall2")],
         },
         "text": "For every history of <= d steps over an alphabet with 1.5 KiB values and 4 KiB target files (so that compaction outputs split, also inside one key's version run) whose last step is a compaction, every entry (key, timestamp, value-or-tombstone) of every manifest-listed SST is dumped before and after the step. Unless the oldest level changed, the multisets must be equal. For a garbage collection nothing may be invented, a dropped value must have at least N newer entries of its key (versions = N), a dropped tombstone must not expose an older retained value, and the newest entry of every key must survive; with any(versions=1, ttl) at now=0 no value may be dropped.",
         "note": "The GC oracle is a conjunction of safety conditions implied by every reading of the policy documentation; retaining more than the policy requires is always allowed. A further job runs the same oracles on a bare LsmTree fed through LsmTree::ingest with externally built SSTs (ten file shapes: single puts and tombstones, whole-range files, a 5 KiB value, two versions of a key in one file; timestamps grow with the step), compaction steps, reopen and verifier passes, from the empty tree and from four seeded states (stacked oldest levels with and without a pending level-0 file, a lower-level file whose timestamps straddle an overlapping upper-level file, before and after reopening). Where the alphabet says so (C01 C04 C08 C20) it also contains two file shapes whose timestamp range straddles earlier files and ingests that park on the level-0 stall (helper thread, completed by whichever later compaction step makes room; a parked flush F! does the same for the store subject): the interplay of a stalled writer with compactions and GCs is then part of the sequential state space.",
